@@ -101,3 +101,46 @@ func Verif_C15_consensusGroup() {
 	verifAssert(errShard != nil, "unknown shard is an error")
 	verifReach("end")
 }
+
+type verifC15CountingCache struct {
+	verifC15Cache
+	hits int
+}
+
+func (c *verifC15CountingCache) Get(key []byte) (interface{}, bool) {
+	v, ok := c.m[string(key)]
+	if ok {
+		c.hits++
+	}
+	return v, ok
+}
+
+// Two queries on one coordinator with a cache, randomness (1..3 symbolic bytes) and round (< 1000)
+// symbolic: the second query is answered from the cache only if it is the same query, so a group
+// computed for one (randomness, round) is never handed out for another one.
+func Verif_C15_cacheKeys() {
+	verifFmtExact(true) // the cache key is rendered with Sprintf
+	elig := []Validator{verifVal("a"), verifVal("b"), verifVal("c")}
+	h := &verifC15Hasher{}
+	sel, _ := NewSelectorExpandedList([]uint32{1, 1, 1}, h)
+	cache := &verifC15CountingCache{verifC15Cache: verifC15Cache{m: map[string]interface{}{}}}
+	ihgs := &indexHashedNodesCoordinator{shardConsensusGroupSize: 1, metaConsensusGroupSize: 1, consensusGroupCacher: cache,
+		nodesConfig: map[uint32]*epochNodesConfig{3: {nbShards: 1, eligibleMap: map[uint32][]Validator{0: elig}, selectors: map[uint32]RandomSelector{0: sel}}}}
+	rnd1 := verifBytes("rnd1", 1+verifChoice("len1", 3))
+	rnd2 := verifBytes("rnd2", 1+verifChoice("len2", 3))
+	round1, round2 := verifU64("round1"), verifU64("round2")
+	verifAssume(round1 < 1000)
+	verifAssume(round2 < 1000)
+	_, err := ihgs.ComputeConsensusGroup(rnd1, round1, 0, 3)
+	verifAssert(err == nil, "first group computed")
+	before := cache.hits
+	_, err = ihgs.ComputeConsensusGroup(rnd2, round2, 0, 3)
+	verifAssert(err == nil, "second group computed")
+	same := round1 == round2 && string(rnd1) == string(rnd2)
+	if !same {
+		verifAssert(cache.hits == before, "a different query is not answered with the cached group of another query")
+	} else {
+		verifAssert(cache.hits == before+1, "the same query is answered from the cache")
+	}
+	verifReach("end")
+}
